@@ -901,6 +901,64 @@ func suffixMatrix(c *Ctx, each func(src string)) {
 	}
 }
 
+// stringMatrix: interpolated strings piece by piece.  Every piece is drawn from a class (empty, plain ASCII, raw
+// control characters, escapes, non-ASCII, invalid UTF-8, mixed); all class tuples for 1, 2 and 3 pieces, a sample
+// for 4; the interpolated queries rotate over {1, ., "x", "\(1)", (1,2)}; each string bare, behind a format, as
+// object key (plain, shorthand, computed) and in index position.  each(src, alt): alt spells the raw control
+// characters of src as escapes and must parse to a DeepEqual AST.
+type piece struct{ raw, esc string }
+
+var pieceClasses = [][]piece{
+	{{"", ""}},
+	{{"ab", "ab"}, {" x ", " x "}, {"#(", "#("}},
+	{{"a\tb", `a\tb`}, {"\n", `\n`}, {"\x01\r", `\u0001\r`}, {"\x7f", `\u007f`}, {"\t", `\t`}, {"\x1f\x00", `\u001f\u0000`}},
+	{{`\n`, `\n`}, {`\t\"`, `\t\"`}, {`\\\/`, `\\\/`}, {`\b\f\r`, `\b\f\r`}, {`\u00e9`, `\u00e9`}, {`\ud83d\ude00`, `\ud83d\ude00`}, {`\ud800`, `\ud800`}, {`\u0000`, `\u0000`}},
+	{{"é", "é"}, {"日本", "日本"}, {"😀", "😀"}},
+	{{"\xff", "\xff"}, {"\xc3", "\xc3"}, {"\xe2\x82", "\xe2\x82"}},
+	{{"a\t\\n é", `a\t\n é`}, {"\n\\u00e9\xff", `\n\u00e9` + "\xff"}, {"😀\r\\\"", `😀\r\"`}},
+}
+var pieceQueries = []string{"1", ".", `"x"`, `"\(1)"`, "(1,2)", `"a\tb"`, `"\n"`}
+
+func stringMatrix(c *Ctx, each func(src, alt string)) {
+	n := 0
+	emit := func(classes []int) {
+		n++
+		var raw, esc strings.Builder
+		for i, k := range classes {
+			ps := pieceClasses[k]
+			p := ps[(n+i)%len(ps)]
+			if i > 0 {
+				q := pieceQueries[(n+i)%len(pieceQueries)]
+				raw.WriteString(`\(` + q + `)`)
+				esc.WriteString(`\(` + q + `)`)
+			}
+			raw.WriteString(p.raw)
+			esc.WriteString(p.esc)
+		}
+		r, e := `"`+raw.String()+`"`, `"`+esc.String()+`"`
+		for _, w := range [][2]string{{"", ""}, {"@base64 ", ""}, {"{", ": 1}"}, {"{", "}"}, {"{(", "): 2}"}, {".[", "]"}, {".", ""}, {".a.", "?"}, {"[", ", 1]"}, {". as {", ": $v} | $v"}} {
+			each(w[0]+r+w[1], w[0]+e+w[1])
+		}
+	}
+	nc := len(pieceClasses)
+	for a := 0; a < nc; a++ {
+		for rep := 0; rep < 8; rep++ { // every representative of the class as a single-piece (plain) string and as first piece
+			emit([]int{a})
+			emit([]int{a, 0})
+		}
+		for b := 0; b < nc; b++ {
+			emit([]int{a, b})
+			emit([]int{b, a})
+			for d := 0; d < nc; d++ {
+				emit([]int{a, b, d})
+			}
+		}
+	}
+	for i := 0; i < 400; i++ {
+		emit([]int{c.Rng.Intn(nc), c.Rng.Intn(nc), c.Rng.Intn(nc), c.Rng.Intn(nc)})
+	}
+}
+
 func runLex(c *Ctx) {
 	var corpusPath string
 	var explicit []string
@@ -948,6 +1006,24 @@ func runLex(c *Ctx) {
 		}
 	})
 	c.Stats["matrix"] = nm
+	ns := 0
+	stringMatrix(c, func(src, alt string) {
+		ns++
+		p := checkSource(c, src, "strings")
+		emitLex(c, src)
+		if alt != src {
+			p2 := checkSource(c, alt, "strings")
+			emitLex(c, alt)
+			switch {
+			case p.panic != nil || p2.panic != nil:
+			case (p.err == nil) != (p2.err == nil):
+				c.Violation("spelling %q :: with the raw control characters written as escapes, %q, the outcome differs: %v vs %v", src, alt, p.err, p2.err)
+			case p.err == nil && !reflect.DeepEqual(p.q, p2.q):
+				c.Violation("spelling %q :: with the raw control characters written as escapes, %q, the AST differs", src, alt)
+			}
+		}
+	})
+	c.Stats["strings"] = ns
 	// a comment is irrelevant whatever it contains
 	if a, b := safeParse("1 + 2"), safeParse("1 #\x00\n+ 2"); a.q != nil && !reflect.DeepEqual(a.q, b.q) {
 		got := "rejected"
